@@ -3,6 +3,7 @@
 from __future__ import annotations
 
 import ast
+import re
 import io
 import json
 import tokenize
@@ -318,6 +319,47 @@ def comment_check(before_src, after_src, put_code_src):
     return None
 
 
+PHDR = 'From Coq Require Import List Bool Arith.\nFrom PF Require Import models.TriviaParams.\nImport ListNotations.\n'
+
+
+def stage_params_corr(ctx: Ctx):
+    """models/TriviaParams.v params == fst_trivia.get_trivia_params: every shape of the option (single value, pair, (), (x,)) over every kind of part
+    (bool, int, KIND, KIND+N, KIND+, KIND-N, KIND-, +N, +, -N, -) and both values of `neg` (exhaustive up to the numbers used)"""
+    from fst.fst_trivia import get_trivia_params
+    kinds = {None: '', 'KNone': 'none', 'KAll': 'all', 'KBlock': 'block', 'KLine': 'line'}
+    parts = [(f'PBool {cbool(b)}', b) for b in (True, False)] + [(f'PInt {n}', n) for n in (0, 1, 5)]
+    for ck, pk in kinds.items():
+        kc = 'None' if ck is None else f'(Some {ck})'
+        if ck is not None:
+            parts.append((f'PStr {kc} XNone', pk))
+        for n in (None, 0, 1, 3):
+            nc = 'None' if n is None else f'(Some {n})'
+            parts.append((f'PStr {kc} (XPlus {nc})', f'{pk}+{"" if n is None else n}'))
+            parts.append((f'PStr {kc} (XMinus {nc})', f'{pk}-{"" if n is None else n}'))
+
+    def c_tri(c, s, n):
+        cc = f'CInt {c}' if isinstance(c, int) and not isinstance(c, bool) else 'CKind ' + {'none': 'KNone', 'all': 'KAll', 'block': 'KBlock', 'line': 'KLine'}[c]
+        sc = 'SpFalse' if s is False else 'SpTrue' if s is True else f'SpN {s}'
+        return f'({cc}, {sc}, {cbool(n)})'
+
+    terms, meta = [], []
+    opts = [(f'OOne ({pc})', pv) for pc, pv in parts] + [('OEmpty', ())] + [(f'OSingle ({pc})', (pv,)) for pc, pv in parts] + \
+           [(f'OPair ({lc}) ({tc})', (lv, tv)) for lc, lv in parts for tc, tv in parts]
+    for oc, ov in opts:
+        for neg in (False, True):
+            try:
+                r = get_trivia_params(ov, neg)
+            except AssertionError:
+                continue      # 'line' on the leading side is asserted against
+            if r[0] == '' or r[3] == '':
+                continue
+            terms.append(f'params_eqb (params {cbool(neg)} ({oc})) ({c_tri(*r[:3])}, {c_tri(*r[3:])})')
+            meta.append({'trivia': repr(ov), 'neg': neg, 'real': repr(r)})
+            ctx.tick(('params', repr(ov), neg), 'trivia-params')
+    failed = coq_eval_bools('C04_params', PHDR, terms, shard=3000)
+    ctx.correspondence('models/TriviaParams.v params == fst_trivia.get_trivia_params (all option shapes x all part kinds x neg)', len(terms), [meta[i] for i in failed])
+
+
 def stage_oracle(ctx: Ctx, progs):
     import fst
     rng = ctx.rng
@@ -421,8 +463,9 @@ def stage_targeted(ctx: Ctx):
             return None
 
     # (a)
-    trivias = [(True, 'line+2'), 'line+', (False, 'block+2'), ('all+', 'line+1'), (True, 'block+'), ('block', 'line+1'), (True, 'none+2'), (True, True), None]
-    for blanks in (1, 2, 3):
+    trivias = [(True, 'line+2'), 'line+', (False, 'block+2'), ('all+', 'line+1'), (True, 'block+'), ('block', 'line+1'), (True, 'none+2'), (True, True), None,
+               (False, '+1'), (True, '+'), ('block', '+2'), ('+1', '+1'), (True, 'line'), ('none', '-1'), (True, '-')]   # '+N' / '-N' alone is shorthand for 'line+N' / 'line-N' (trailing)
+    for blanks in (0, 1, 2, 3):
         for own in ('', '  # own'):
             for ind, head in (('', ''), ('    ', 'if c:\n')):
                 body = f'{ind}a = 1{own}\n' + '\n' * blanks + f'{ind}# belongs to b\n{ind}b = 2\n' + f'{ind}c = 3\n'
@@ -448,6 +491,11 @@ def stage_targeted(ctx: Ctx):
                         after = root.src
                         want = ['# belongs to b'] + (['# own'] if own and act == 'replace' and False else [])
                         have = comments(after)
+                        # documented reading of the trailing part of the option: bool -> 'line' / 'none'; a string is KIND[+N|-N] where a missing KIND means 'line'
+                        tpart = True if tv is None else (tv[-1] if isinstance(tv, tuple) and tv else True if not isinstance(tv, tuple) else False)
+                        tkind = ('line' if tpart else 'none') if isinstance(tpart, bool) else (re.split(r'[+-]', tpart)[0] or 'line')
+                        if blanks == 0 and tkind in ('block', 'all'):
+                            continue      # the comment block directly below the statement IS selected by a trailing 'block' / 'all'
                         if have is None or '# belongs to b' not in have:
                             ctx.violation('comment-lost|next-statement-comment-after-blank-lines', 'deleting a statement with trailing-space trivia removed a comment line that belongs to the next statement',
                                           {'before': src, 'after': after, 'action': act, 'trivia': repr(tv)})
@@ -455,6 +503,53 @@ def stage_targeted(ctx: Ctx):
                             ast.parse(after)
                         except SyntaxError as e:
                             ctx.violation('text|targeted|unparsable', 'the edited source no longer parses', {'before': src, 'after': after, 'action': act, 'trivia': repr(tv), 'error': str(e)})
+    # (c) docstr=False / 'strict': moving or re-indenting statements never touches the inside of multi-line strings that are not docstrings
+    strs = lambda t: sorted(n.value for n in ast.walk(t) if isinstance(n, ast.Constant) and isinstance(n.value, str))
+    progs_c = ['if a:\n    pass\nelif b:\n    x = 1\n    \'\'\'not a docstring\ncontinued at col 0\n      and more\'\'\'\n    y = 2\n',
+               'if a:\n    pass\nelse:\n    if b:\n        \'\'\'bare\nstring\'\'\'\n',
+               'def f():\n    x = 0\n    \'\'\'not first\nso no docstring\'\'\'\n    if c:\n        s = \'\'\'assigned\nvalue\'\'\'\n']
+    for src in progs_c:
+        for docstr in (False, 'strict'):
+            probe = fst.FST(src, 'exec')
+            blocks = [(probe.child_path(f), fld) for f in probe.walk(True) for fld in ('body', 'orelse') if isinstance(getattr(f.a, fld, None), list) and getattr(f.a, fld) and isinstance(f.a, (ast.stmt, ast.Module))]
+            for path, fld in blocks:
+                n = len(getattr(probe.child_from_path(path).a, fld))
+                for idx in range(n + 1):
+                    for act in ('insert', 'insert_if', 'cut_put_back', 'indent_move'):
+                        if docstr == 'strict' and act in ('cut_put_back', 'indent_move'):
+                            continue      # a bare string that becomes the first statement of the extracted piece IS a docstring there under 'strict'
+                        root = fst.FST(src, 'exec')
+                        node = root.child_from_path(path)
+                        before = strs(root.a)
+                        try:
+                            if act == 'insert':
+                                node.put_slice('new_stmt = 1', idx, idx, fld, docstr=docstr)
+                            elif act == 'insert_if':
+                                node.put_slice('if q:\n    r', idx, idx, fld, docstr=docstr)
+                            elif act == 'cut_put_back':
+                                if idx >= n:
+                                    continue
+                                piece = node.get_slice(idx, idx + 1, fld, cut=True, docstr=docstr)
+                                node.put_slice(piece, idx, idx, fld, docstr=docstr)
+                            else:
+                                if idx >= n:
+                                    continue
+                                piece = node.get_slice(idx, idx + 1, fld, docstr=docstr)
+                                root.put_slice(fst.FST('if deeper:\n    if more:\n        pass', 'exec'), 'end', 'end', 'body')
+                                root.body[-1].body[0].put_slice(piece, 0, 1, 'body', docstr=docstr)
+                        except Exception:
+                            continue
+                        ctx.tick(('targeted-c', src, str(path), fld, idx, act, docstr), 'op:targeted-docstr-option')
+                        try:
+                            after = strs(ast.parse(root.src))
+                        except SyntaxError as e:
+                            ctx.violation('text|targeted|unparsable', 'the edited source no longer parses', {'before': src, 'after': root.src, 'action': act, 'docstr': docstr, 'error': str(e)})
+                            continue
+                        extra = list(before)
+                        lost = [v for v in before if v not in after]
+                        if lost:
+                            ctx.violation(f'string-changed|docstr={docstr}', 'with docstr=False/strict an edit changed the text inside a multi-line string that is not a docstring',
+                                          {'before': src, 'after': root.src, 'action': act, 'field': fld, 'idx': idx, 'docstr': docstr, 'changed': lost[:2]})
     # (b)
     lines = ['d = {{"ключ": {E}, "k": [y, z]}}  # коммент', 'r = "naïve café" + {E} * w', 'f("日本語", {E}, kw={E2})', 'ü = [é, {E}, "ö"]']
     for tmpl in lines:
@@ -493,6 +588,7 @@ def run(ctx: Ctx):
     if ok:
         ctx.build_props()
     run_guarded(ctx, stage_trivia_corr)
+    run_guarded(ctx, stage_params_corr)
     progs = corpus(ctx.rng, gen=ctx.scale(25, 200))
     run_guarded(ctx, stage_oracle, progs)
     run_guarded(ctx, stage_line_comment, progs)
